@@ -19,7 +19,11 @@
 #include <string.h>
 #include <math.h>
 #include <float.h>
+#include <limits.h>
 #include <stdlib.h>
+#include <limits.h>
+/* a visit function stops a traversal with "a non-zero value": any of them, which the traversal must hand back unchanged */
+static const int stopvals[12] = { -3, -2, -1, 11, 1, 2, 3, 256, 65536, -65536, INT_MIN, INT_MAX };
 
 static uint64_t wk;             /* basic blocks of library code the last keyed operation executed (work variant only) */
 
@@ -271,6 +275,11 @@ static int find_visit(const void *obj, void *priv)
     noffered++;
     if (accept_exact) r = obj == accept_exact;
     else if (accept_at > 0 && noffered == accept_at) r = 1;
+    if (r) {
+        /* "a non-zero value": any of them, negative ones included */
+        static const int yes[] = { 1, -1, 2, 256, 65536, -65536, INT_MIN, INT_MAX };
+        r = yes[(tabseed + (uint64_t)noffered) % 8];
+    }
     CB_LEAVE();
     return r;
 }
@@ -874,7 +883,7 @@ static void x_once(const plan_t *p)
             int expect_n, expect_r = 0, j;
             nseen = 0; enum_tab = &tb[t]; enum_t = t;
             stop_at = (o->a[2] & 1) ? 0 : (int)(o->a[3] % (uint64_t)(m->nlive + 2));
-            stop_val = (int)(o->a[1] % 7) - 3; if (stop_val == 0) stop_val = 11;
+            stop_val = stopvals[(o->a[1] >> 8 ^ o->a[1]) % 12];
             erase_pm = (o->a[2] & 2) ? (unsigned)(o->a[3] >> 12) % 1001 : 0;
             erase_seed = o->a[3];
             if (!was_settled) { PROBE("foreach_mid_rehash"); if (m->req.n > m->hist[1].n) PROBE("foreach_grow_pending"); }
@@ -903,7 +912,7 @@ static void x_once(const plan_t *p)
             int expect_n, expect_r = 0;
             nseen = 0; enum_tab = NULL; erase_pm = 0;
             stop_at = (o->a[2] & 1) ? 0 : (int)(o->a[3] % (uint64_t)(m->nlive + 2));
-            stop_val = (int)(o->a[1] % 7) - 3; if (stop_val == 0) stop_val = 11;
+            stop_val = stopvals[(o->a[1] >> 8 ^ o->a[1]) % 12];
             if (!was_settled) { PROBE("foreach_const_mid_rehash"); if (m->req.n > m->hist[1].n) PROBE("foreach_const_grow_pending"); }
             TRY(ri = cstl_hash_foreach_const(&tb[t], enum_visit_const, NULL));
             if (c17_after(t, "foreach_const")) return;
@@ -1087,7 +1096,7 @@ static void x_gen(prng_t *r, int mode, plan_t *p)
         if (mode != 17 && prng_chance(r, 1, 8)) {
             unsigned y = (unsigned)prng_below(r, 3);
             o = plan_add(p, y == 0 ? O_FOREACH_CONST : y == 1 ? O_FOREACH : O_CLEAR);
-            o->a[0] = (uint64_t)i; o->a[1] = prng_below(r, 7); o->a[2] = prng_below(r, 4); o->a[3] = prng_next(r) >> 8;
+            o->a[0] = (uint64_t)i; o->a[1] = prng_below(r, 12); o->a[2] = prng_below(r, 4); o->a[3] = prng_next(r) >> 8;
         }
         o = plan_add(p, O_RESIZE);
         cur[i] = 1 + prng_below(r, maxb);
@@ -1117,7 +1126,7 @@ static void x_gen(prng_t *r, int mode, plan_t *p)
                 /* enumerate / clear right here, possibly mid-rehash */
                 unsigned y = (unsigned)prng_below(r, 10);
                 o = plan_add(p, y < 4 ? O_FOREACH_CONST : y < 8 ? O_FOREACH : O_CLEAR);
-                o->a[0] = t; o->a[1] = prng_below(r, 7); o->a[2] = prng_below(r, 4); o->a[3] = prng_next(r) >> 8;
+                o->a[0] = t; o->a[1] = prng_below(r, 12); o->a[2] = prng_below(r, 4); o->a[3] = prng_next(r) >> 8;
                 if (o->kind == O_CLEAR) {
                     /* empty and reusable after a fresh resize */
                     int nf = (int)prng_below(r, 5);
@@ -1137,9 +1146,9 @@ static void x_gen(prng_t *r, int mode, plan_t *p)
         } else if (x < 91) {
             o = plan_add(p, O_SWAP); o->a[0] = t; o->a[1] = prng_below(r, 8);
         } else if (x < 95) {
-            o = plan_add(p, O_FOREACH_CONST); o->a[0] = t; o->a[1] = prng_below(r, 7); o->a[2] = prng_below(r, 4); o->a[3] = prng_next(r) >> 8;
+            o = plan_add(p, O_FOREACH_CONST); o->a[0] = t; o->a[1] = prng_below(r, 12); o->a[2] = prng_below(r, 4); o->a[3] = prng_next(r) >> 8;
         } else if (x < 99) {
-            o = plan_add(p, O_FOREACH); o->a[0] = t; o->a[1] = prng_below(r, 7); o->a[2] = prng_below(r, 4); o->a[3] = prng_next(r) >> 8;
+            o = plan_add(p, O_FOREACH); o->a[0] = t; o->a[1] = prng_below(r, 12); o->a[2] = prng_below(r, 4); o->a[3] = prng_next(r) >> 8;
         } else {
             o = plan_add(p, mode == 17 ? O_RANGE : O_CLEAR); o->a[0] = t; o->a[1] = prng_next(r); o->a[2] = prng_below(r, 4);
         }
